@@ -42,6 +42,19 @@ def describe(r, v):
     return d
 
 
+def genuine_tag(R):
+    """the tag the one-shot object itself produces for the fixed first-use input (input selection: the verdict on the decrypt that consumes it is
+    computed by TraceAead like any other)"""
+    if not hasattr(R, "_c20_tag"):
+        kb = lambda tag, n: vlib.prng_bytes(R.seed, "c20/" + tag, n)
+        h = {"id": "c20-tag", "cls": "aead1", "rounds": 20, "key": kb("key", 32), "nonce": kb("nonce", 12), "aad": kb("aad", 5), "ev": [{"op": "new"}, {"op": "encrypt", "data": kb("first", 3)}]}
+        out = R.drive_on([h], "rel", "c20tag")[0]["ev"][1]["out"]
+        if out["k"] != "v" or len(out["v"]) != 3 + 16:
+            raise vlib.ToolError("cannot obtain a tag for the reuse shapes: %s" % out)
+        R._c20_tag = out["v"][3:]
+    return R._c20_tag
+
+
 def concretise(R, s, legal):
     """one ApiDomain shape -> (history, functional trace module or None)"""
     kb = lambda tag, n: vlib.prng_bytes(R.seed, "c20/" + tag, n)
@@ -72,6 +85,10 @@ def concretise(R, s, legal):
         ev = [{"op": "new"}]
         if d == 2:
             ev.append({"op": "encrypt", "data": kb("first", 3)})
+        elif d == 3:                                       # a decrypt that rejects its tag uses the object up all the same
+            ev.append({"op": "decrypt", "data": kb("first", 3), "tag": kb("wrongtag", 16)})
+        elif d == 4:
+            ev.append({"op": "decrypt", "data": kb("first", 3), "tag": genuine_tag(R)})
         probe = {"op": v, "data": kb("d", a), "n": b, "api": api}
         if v == "encrypt":
             probe["taglen"] = c
